@@ -1,4 +1,5 @@
 import QVerif.Lemmas.RunnerInv
+import QVerif.Model.Install
 
 /-!
 # C07 — the wrapped primitive is never used concurrently
@@ -111,3 +112,50 @@ example : ((runActs { th := exProg } exTrace).map (fun s => ((s.get 0).loc, s.E,
   decide
 
 end Runner
+
+/-! ## The solver's constructor: every solver built on a shared configured primitive evaluates through the SAME guard -/
+
+namespace QVerif.Install
+
+theorem mem_viewsFrom_suffix : ∀ (cfgs : List Cfg) (k : Nat) (chain v : List W), v ∈ viewsFrom cfgs k chain →
+    ∀ w ∈ chain, w ∈ v
+  | [], _, _, _, h, _, _ => by cases h
+  | c :: cs, k, chain, v, h, w, hw => by
+      simp only [viewsFrom, List.mem_cons] at h
+      have hin : w ∈ install c k chain := by
+        unfold install
+        cases guardOf c k <;> simp [hw]
+      rcases h with rfl | h
+      · exact hin
+      · exact mem_viewsFrom_suffix cs (k + 1) (install c k chain) v h w hin
+
+/-- **One guard for all solvers.**  If the first solver constructed on a configured primitive asks for mutual exclusion (thread
+pool: batching runner; dask client: lock), the guard object it installs lies on the evaluation path of EVERY solver
+constructed on that configured primitive afterwards, whatever their own configuration: all of them are serialised by that one
+runner / lock (`C07_f_exclusive`, `mutex_run_exclusive`), and every path ends in a transpiling wrapper on the outside. -/
+theorem shared_guard (c : Cfg) (cs : List Cfg) (g : W) (hg : guardOf c 0 = some g) :
+    ∀ v ∈ views (c :: cs), g ∈ v ∧ v.head? = some .transpiling := by
+  intro v hv
+  have hgi : g ∈ install c 0 [] := by unfold install; rw [hg]; simp
+  constructor
+  · simp only [views, viewsFrom, List.mem_cons] at hv
+    rcases hv with rfl | hv
+    · exact hgi
+    · exact mem_viewsFrom_suffix cs 1 (install c 0 []) v hv g hgi
+  · have : ∀ (cfgs : List Cfg) (k : Nat) (chain v : List W), v ∈ viewsFrom cfgs k chain → v.head? = some .transpiling := by
+      intro cfgs
+      induction cfgs with
+      | nil => intro k chain v h; cases h
+      | cons c' cs' ih =>
+        intro k chain v h
+        simp only [viewsFrom, List.mem_cons] at h
+        rcases h with rfl | h
+        · simp [install]
+        · exact ih _ _ v h
+    exact this _ _ _ v hv
+
+-- two solvers with a thread pool on one configured estimator: T(B1(T(B0(raw)))) — both evaluate through runner 0
+example : views [⟨true, .threadPool⟩, ⟨true, .threadPool⟩] =
+    [[.transpiling, .batching 0], [.transpiling, .batching 1, .transpiling, .batching 0]] := by decide
+
+end QVerif.Install
